@@ -218,7 +218,7 @@ static std::string gen_sup(vj::Rng& r) {
       w.key("x").beginArr(); for (int i = 0; i < 4; i++) w.beginArr().val((long long)(xs[i] & 0xFFFF)).val((long long)(xs[i] >> 16)).endArr(); w.endArr();
       w.key("y").beginArr(); for (int i = 0; i < 4; i++) w.beginArr().val((long long)(ys[i] & 0xFFFF)).val((long long)(ys[i] >> 16)).endArr(); w.endArr();
       w.kv("n", uint32_t(r.below(1000))); return fin(w); }
-    case 42: { bits = 32; W w = ev("sort"); size_t len = r.chance(1, 2) ? r.below(9) : r.below(40); w.key("x").beginArr(); for (size_t i = 0; i < len; i++) w.val((long long)(int64_t(r.below(r.chance(1, 2) ? 10 : 2000000)) - 1000000)); w.endArr();
+    case 42: { bits = 32; W w = ev("sort"); size_t len = 1 + (r.chance(1, 2) ? r.below(9) : r.below(40)); w.key("x").beginArr(); for (size_t i = 0; i < len; i++) w.val((long long)(int64_t(r.below(r.chance(1, 2) ? 10 : 2000000)) - 1000000)); w.endArr();
       w.kv("alg", r.chance(1, 2) ? "qsort" : "isort").kv("desc", r.chance(1, 3)); return fin(w); }
     default: { W w = ev("bwiter"); wbytes(w, "a", rnd_word(r, bits), bits / 8); return fin(w); }
   }
